@@ -70,10 +70,11 @@ const (
 	TxCreateDirect // contract creation transaction: the deployed code's length depends on the recipe
 	TxExtSize      // a contract that stores EXTCODESIZE of an address a creation transaction may have deployed to
 	// (kinds added later go below: recorded plans hold kind numbers)
-	TxSelfDestructLoop // one transaction calls a self-destructing contract three times (value 0, callvalue, 0)
-	TxFundDealloc      // plain transfer to an address of the HF4 de-allocation list
-	TxBalanceArith     // a contract that reads balances (its own, the caller's, calldata[0]'s) and does arithmetic on the values
-	TxFundCreate       // a contract pays its call value to the address its next CREATE will get, then CREATEs there (init code fails, reverts or succeeds)
+	TxSelfDestructLoop     // one transaction calls a self-destructing contract three times (value 0, callvalue, 0)
+	TxFundDealloc          // plain transfer to an address of the HF4 de-allocation list
+	TxBalanceArith         // a contract that reads balances (its own, the caller's, calldata[0]'s) and does arithmetic on the values
+	TxFundCreate           // a contract pays its call value to the address its next CREATE will get, then CREATEs there (init code fails, reverts or succeeds)
+	TxDelegateSelfDestruct // a contract holding a balance runs SELFDESTRUCT through DELEGATECALL (A even) or CALLCODE (A odd) into a library
 	numTxKinds
 )
 
@@ -241,6 +242,11 @@ func Build(r *Recipe) (u *Universe, err error) {
 	add("callrevert", codeCallThenRevert, 0)
 	add("extsize", common.FromHex("6000353b60005500"), 0) // SSTORE(0, EXTCODESIZE(calldata[0]))
 	add("sdloop", codeSelfDestrLoop, 0)
+	add("sdlib", codeSelfDestr, 0)
+	lib := contractAddr("sdlib").Bytes()
+	// CALLDATACOPY(0,0,size); DELEGATECALL / CALLCODE (gas, sdlib, [0,] 0, size, 0, 0): the library's SELFDESTRUCT runs on this account
+	add("dsd0", append(append(common.FromHex("366000600037"+"60006000366000"+"73"), lib...), common.FromHex("5af400")...), 2000)
+	add("dsd1", append(append(common.FromHex("366000600037"+"600060003660006000"+"73"), lib...), common.FromHex("5af200")...), 2001)
 	add("balarith", codeBalanceArith, 5)
 	add("fundcreate", codeFundCreate, 0)
 	for n := 0; n <= 4; n++ {
@@ -405,6 +411,17 @@ func (u *Universe) makeTx(tr *TxRecipe, nonce uint64, number *big.Int) (*types.T
 	case TxFundDealloc:
 		gas = 21000
 		tx = types.NewTransaction(nonce, common.HexToAddress(HF4Addrs[int(tr.A)%4]), val, gas, price, nil)
+	case TxDelegateSelfDestruct:
+		gas = 150000
+		wallet := u.Contracts[fmt.Sprintf("dsd%d", tr.A%2)]
+		ben := to
+		switch tr.B % 3 {
+		case 1:
+			ben = wallet // beneficiary = the wallet itself
+		case 2:
+			ben = common.BytesToAddress(refmodel.Keccak(word(tr.B + 31))[12:]) // fresh address
+		}
+		tx = types.NewTransaction(nonce, wallet, val, gas, price, addrWord(ben))
 	case TxBalanceArith:
 		gas = 90000
 		tx = types.NewTransaction(nonce, u.Contracts["balarith"], val, gas, price, addrWord(to))
@@ -415,8 +432,13 @@ func (u *Universe) makeTx(tr *TxRecipe, nonce uint64, number *big.Int) (*types.T
 		tx = types.NewTransaction(nonce, u.Contracts["fundcreate"], val, gas, price, append(data, word(uint64(len(init)))...))
 	case TxCreateFail:
 		gas = 150000
-		// direct contract creation whose init code reverts / runs an invalid opcode
-		tx = types.NewContractCreation(nonce, val, gas, price, common.FromHex("60016000556000fe"))
+		// direct contract creation whose init code reverts / runs an invalid opcode, or (B odd)
+		// returns one byte more code than a contract may have
+		init := common.FromHex("60016000556000fe")
+		if tr.B%2 == 1 {
+			init = common.FromHex("6001600055" + "6160016000f3") // SSTORE(0,1); RETURN(0, 0x6001)
+		}
+		tx = types.NewContractCreation(nonce, val, gas, price, init)
 	}
 	signed, err := types.SignTx(tx, types.MakeSigner(u.Cfg, number), u.Keys[from])
 	if err != nil {
